@@ -29,12 +29,13 @@ const allocSlack = 16 << 20 // only order-of-magnitude blow-ups count
 var watchdog = 20 * time.Second
 
 type outcome struct {
-	val   any
-	tail  []byte
-	err   error
-	alloc uint64
-	took  time.Duration
-	hung  bool
+	val      any
+	tail     []byte
+	err      error
+	alloc    uint64
+	took     time.Duration
+	hung     bool
+	panicked string
 }
 
 // decodeGuarded runs one Decode with the allocation probe and a hang watchdog.
@@ -43,6 +44,13 @@ func decodeGuarded(packet []byte, opts edf.Options) outcome {
 	go func() {
 		before := heapAllocs()
 		t0 := time.Now()
+		defer func() {
+			// a panic that escapes Decode would take the calling goroutine down (in a node: the
+			// acceptor loop or a link reader, which have no recover of their own)
+			if r := recover(); r != nil {
+				done <- outcome{panicked: fmt.Sprint(r)}
+			}
+		}()
 		v, tail, err := edf.Decode(packet, opts)
 		done <- outcome{val: v, tail: tail, err: err, alloc: heapAllocs() - before, took: time.Since(t0)}
 	}()
@@ -141,6 +149,9 @@ func judge(packet []byte, cfg edfgen.Config) (violation string, known string, re
 	if o.hung {
 		return "Decode did not return within 20 s", "", true
 	}
+	if o.panicked != "" {
+		return "Decode panicked instead of returning an error: " + o.panicked, "", true
+	}
 	limit := uint64(allocSlack + 4096*len(packet))
 	if o.alloc > limit {
 		return fmt.Sprintf("Decode allocated %d bytes for a %d-byte input (bound %d)", o.alloc, len(packet), limit), "", true
@@ -167,7 +178,7 @@ func judge(packet []byte, cfg edfgen.Config) (violation string, known string, re
 		return fmt.Sprintf("decoded a %T that the encoder refuses: %v", o.val, err), "", reached
 	}
 	o2 := decodeGuarded(buf.B, cfg.Dec)
-	if o2.hung || o2.err != nil {
+	if o2.hung || o2.err != nil || o2.panicked != "" {
 		return fmt.Sprintf("re-encoded bytes of a decoded %T do not decode: %v", o.val, o2.err), "", reached
 	}
 	if err := edfgen.Equal(o.val, o2.val, cfg.Eq); err != nil {
@@ -238,15 +249,29 @@ var recDecode = kit.NewRecorder("C16", "decode",
 // hostile descriptor shapes (type prefix 0x82 len16 fold): huge arrays, arrays of zero-size arrays,
 // slices of huge arrays, maps of huge arrays, registered containers with inflated counts
 var hostile = [][]byte{
-	{0x82, 0x00, 0x06, 0x9e, 0x40, 0x00, 0x00, 0x00, 0x95},                               // [2^30]int64
-	{0x82, 0x00, 0x0b, 0x9e, 0xff, 0xff, 0xff, 0xff, 0x9e, 0, 0, 0, 0, 0x95},             // [2^32-1][0]int64
-	{0x82, 0x00, 0x07, 0x9d, 0x9e, 0x10, 0x00, 0x00, 0x00, 0x95, 0x9d, 0x00, 0x00, 0x00, 0x01}, // [][2^28]int64 with 1 item
+	{0x82, 0x00, 0x06, 0x9e, 0x40, 0x00, 0x00, 0x00, 0x95},                                                             // [2^30]int64
+	{0x82, 0x00, 0x0b, 0x9e, 0xff, 0xff, 0xff, 0xff, 0x9e, 0, 0, 0, 0, 0x95},                                           // [2^32-1][0]int64
+	{0x82, 0x00, 0x07, 0x9d, 0x9e, 0x10, 0x00, 0x00, 0x00, 0x95, 0x9d, 0x00, 0x00, 0x00, 0x01},                         // [][2^28]int64 with 1 item
 	{0x82, 0x00, 0x08, 0x9f, 0x8d, 0x9e, 0x10, 0x00, 0x00, 0x00, 0x95, 0x9f, 0x00, 0x00, 0x00, 0x01, 0x00, 0x01, 0x61}, // map[string][2^28]int64
-	{0x82, 0x00, 0x02, 0x9d, 0x95, 0x9d, 0xff, 0xff, 0xff, 0xff},                         // []int64 with count 2^32-1
-	{0x82, 0x00, 0x03, 0x9f, 0x8d, 0x95, 0x9f, 0x7f, 0xff, 0xff, 0xff},                   // map[string]int64 with count 2^31-1
-	{0x84, 0x82, 0x00, 0x06, 0x9e, 0x40, 0x00, 0x00, 0x00, 0x95},                         // any holding [2^30]int64
-	{0x8e, 0xff, 0xff, 0xff, 0xf0},                                                       // binary with length 2^32-16
-	{0x8d, 0xff, 0xff},                                                                   // string with length 65535, no data
+	{0x82, 0x00, 0x02, 0x9d, 0x95, 0x9d, 0xff, 0xff, 0xff, 0xff},                                                       // []int64 with count 2^32-1
+	{0x82, 0x00, 0x03, 0x9f, 0x8d, 0x95, 0x9f, 0x7f, 0xff, 0xff, 0xff},                                                 // map[string]int64 with count 2^31-1
+	{0x84, 0x82, 0x00, 0x06, 0x9e, 0x40, 0x00, 0x00, 0x00, 0x95},                                                       // any holding [2^30]int64
+	{0x8e, 0xff, 0xff, 0xff, 0xf0},                                                                                     // binary with length 2^32-16
+	{0x8d, 0xff, 0xff},                                                                                                 // string with length 65535, no data
+	// descriptors of types that cannot be built at all (reflect refuses them)
+	{0x82, 0x00, 0x0b, 0x9e, 0xff, 0xff, 0xff, 0xff, 0x9e, 0xff, 0xff, 0xff, 0xff, 0x96, 1, 2, 3, 4, 5, 6, 7, 8}, // [2^32-1][2^32-1]int: beyond the address space
+	{0x82, 0x00, 0x04, 0x9f, 0x9d, 0x95, 0x95, 0xff},                                                             // map[[]int64]int64: key type not hashable
+	{0x82, 0x00, 0x05, 0x9f, 0x9f, 0x8d, 0x95, 0x95, 0xff},                                                       // map[map[string]int64]int64
+	{0x84, 0x82, 0x00, 0x04, 0x9f, 0x9d, 0x95, 0x95, 0xff},                                                       // the same inside any
+	{0x82, 0x00, 0x06, 0x9d, 0x9f, 0x9d, 0x95, 0x95, 0x9d, 0x00, 0x00, 0x00, 0x01, 0xff},                         // []map[[]int64]int64 with one item
+}
+
+func init() {
+	// a map keyed by a registered struct type that holds a slice (not hashable)
+	name := "#verif/harness/kit/edfgen/VInner"
+	fold := append([]byte{0x9f, 0x83, byte(len(name) >> 8), byte(len(name))}, name...)
+	fold = append(fold, 0x95)
+	hostile = append(hostile, append(append([]byte{0x82, byte(len(fold) >> 8), byte(len(fold))}, fold...), 0xff))
 }
 
 func propDecode(t *rapid.T) {
@@ -317,4 +342,3 @@ func FuzzDecode(f *testing.F) {
 		}
 	})
 }
-
